@@ -2,7 +2,7 @@
 (* Schedule generation: behaviours of the design spec; only the ENVIRONMENT's moves (reader calls, Store calls,
    cancellations, expiries) are recorded in `hist`; what the store and the reader goroutines do in between is the
    implementation's business.  The driver calls Store synchronously, so no environment move happens while a
-   Store call is in progress.  Run with -simulate (RandomElement keeps the 126 possible Store sets from
+   Store call is in progress (concurrent writers are scheduled by checks/c17.py's own generator).  Run with -simulate (RandomElement keeps the 126 possible Store sets from
    crowding out the other moves: TLC's simulator picks uniformly among successor states). *)
 EXTENDS AggSigDB, Json
 CONSTANTS GenLen, MaxReaders, Duties, Pks, Vals
@@ -15,15 +15,15 @@ StoreSets == UNION {{ {[k |-> [d |-> d, p |-> p], v |-> f[p]] : p \in P} : f \in
 Dyn(S) == IF Len(hist) >= 0 THEN S ELSE {}
 GenInit == Init /\ impl = "v1" /\ hist = <<>>
 GenNext ==
-  \/ \E k \in {RandomElement(Dyn(GKeys))} : /\ ~wr.on /\ Cardinality(DOMAIN rd) < MaxReaders
+  \/ \E k \in {RandomElement(Dyn(GKeys))} : /\ ~AnyWr /\ Cardinality(DOMAIN rd) < MaxReaders
                       /\ AwaitCall(RId(Cardinality(DOMAIN rd) + 1), k)
                       /\ hist' = Append(hist, [ev |-> "Await", r |-> RId(Cardinality(DOMAIN rd) + 1), k |-> k])
   \/ \E r \in DOMAIN rd : (Query(r) \/ ReturnVal(r) \/ ReturnErr(r)) /\ UNCHANGED hist
-  \/ \E r \in DOMAIN rd : ~wr.on /\ Cancel(r) /\ hist' = Append(hist, [ev |-> "Cancel", r |-> r])
-  \/ \E S \in {RandomElement(Dyn(StoreSets))} : StoreCall(S) /\ hist' = Append(hist, [ev |-> "Store", set |-> S])
-  \/ (\E e \in wr.todo : StoreEntry(e)) /\ UNCHANGED hist
-  \/ StoreReturn /\ UNCHANGED hist
-  \/ \E d \in {k.d : k \in DOMAIN data} : ~wr.on /\ Expire(d) /\ hist' = Append(hist, [ev |-> "Expire", d |-> d])
+  \/ \E r \in DOMAIN rd : ~AnyWr /\ Cancel(r) /\ hist' = Append(hist, [ev |-> "Cancel", r |-> r])
+  \/ \E S \in {RandomElement(Dyn(StoreSets))} : ~AnyWr /\ StoreCall("w0", S) /\ hist' = Append(hist, [ev |-> "Store", set |-> S])
+  \/ \E w \in DOMAIN wr : (Acquire(w) \/ (\E e \in wr[w].todo : StoreEntry(w, e)) \/ StoreReturn(w) \/ StoreAck(w))
+                          /\ UNCHANGED hist
+  \/ \E d \in {k.d : k \in DOMAIN data} : ~AnyWr /\ Expire(d) /\ hist' = Append(hist, [ev |-> "Expire", d |-> d])
 GenSpec == GenInit /\ [][GenNext]_<<vars, hist>>
 Emit == Len(hist) < GenLen \/ PrintT("@@SCHED@@" \o ToJson(hist))
 Stop == Len(hist) <= GenLen
